@@ -576,16 +576,16 @@ def run(ctx) -> None:
     ctx.chk.explain("C20: order-type decision of comparison-only guards (check_range, align, extend_block, swap16/32, BCD, block-size helpers), "
                     "regex language equality for value_to_int (automata product), bit provenance for swap16, length algebra for the append-only padding helpers, "
                     "structural agreement of stride/window/modulus constants.")
-    rule_check_range(ctx)
-    rule_align(ctx)
-    rule_align_block(ctx)
-    rule_swaps(ctx)
-    rule_value_to_int(ctx)
-    rule_strides(ctx)
-    rule_bcd(ctx)
-    rule_enum(ctx)
-    rule_load_hex_string(ctx)
-    rule_change_endianness(ctx)
+    ctx.rule(rule_check_range)
+    ctx.rule(rule_align)
+    ctx.rule(rule_align_block)
+    ctx.rule(rule_swaps)
+    ctx.rule(rule_value_to_int)
+    ctx.rule(rule_strides)
+    ctx.rule(rule_bcd)
+    ctx.rule(rule_enum)
+    ctx.rule(rule_load_hex_string)
+    ctx.rule(rule_change_endianness)
     ctx.chk.floor("C20.check_range", 1)
     ctx.chk.floor("C20.value_to_int.regex", 1)
     ctx.chk.assumptions = ["Python int/struct/re semantics as documented", "not decided: get_bytes_cnt_of_int width table, reverse_bits, value-level conversions"]
